@@ -519,3 +519,65 @@ pub fn pick_shape(ch: &mut crate::explore::Ch, max_v: usize, max_n: usize, allow
         Shape { is_enum: true, variants: vs }
     }
 }
+
+
+// ---------------------------------------------------------------------------------------
+// macro_rules!-generated definitions
+// ---------------------------------------------------------------------------------------
+
+/// Rewrites `head item` so that the item is produced by a `macro_rules!` macro whose body holds the derive attribute(s)
+/// and the definition, while every helper attribute (`#[ord(..)]`, `#[debug(..)]`, `#[default(..)]`, ..) arrives as a
+/// `meta` fragment of the macro CALL - i.e. with the syntax context of the caller, not of the macro body.
+/// Returns None if the item carries no helper attribute.
+pub fn macroize_helper_attrs(head: &str, item: &str) -> Option<String> {
+    const HELPERS: [&str; 7] = ["debug", "default", "ord", "partial_ord", "eq", "partial_eq", "hash"];
+    let b: Vec<char> = item.chars().collect();
+    let mut out = String::new();
+    let mut metas: Vec<String> = Vec::new();
+    let mut i = 0;
+    while i < b.len() {
+        if b[i] == '#' && i + 1 < b.len() && b[i + 1] == '[' {
+            // find the matching `]`
+            let mut depth = 0i32;
+            let mut j = i + 1;
+            let mut in_str = false;
+            while j < b.len() {
+                let c = b[j];
+                if in_str {
+                    if c == '\\' {
+                        j += 1;
+                    } else if c == '"' {
+                        in_str = false;
+                    }
+                } else if c == '"' {
+                    in_str = true;
+                } else if c == '[' || c == '(' || c == '{' {
+                    depth += 1;
+                } else if c == ']' || c == ')' || c == '}' {
+                    depth -= 1;
+                    if depth == 0 {
+                        break;
+                    }
+                }
+                j += 1;
+            }
+            let inner: String = b[i + 2..j].iter().collect();
+            let name: String = inner.trim_start().chars().take_while(|c| c.is_alphanumeric() || *c == '_').collect();
+            if HELPERS.contains(&name.as_str()) {
+                out.push_str(&format!("#[$m{}]", metas.len()));
+                metas.push(inner.trim().to_string());
+            } else {
+                out.push_str(&b[i..=j].iter().collect::<String>());
+            }
+            i = j + 1;
+        } else {
+            out.push(b[i]);
+            i += 1;
+        }
+    }
+    if metas.is_empty() {
+        return None;
+    }
+    let params: Vec<String> = (0..metas.len()).map(|k| format!("$m{k}:meta")).collect();
+    Some(format!("macro_rules! mk_item {{ ({}) => {{ {head}\n{out} }} }}\nmk_item!({});\n", params.join(", "), metas.join(", ")))
+}
